@@ -6,6 +6,8 @@ import (
 	"flag"
 	"fmt"
 	"os"
+	"path/filepath"
+	"strings"
 
 	"verifharness/gen"
 )
@@ -16,7 +18,17 @@ func main() {
 	n := flag.Int("n", 100, "number of grammars")
 	out := flag.String("out", "", "output case file")
 	pretty := flag.String("pretty", "", "optional file: PEG text of every grammar, for humans")
+	emit := flag.String("emit", "", "optional directory: one complete pigeon source per grammar (<id>.peg) for the emitted path")
 	flag.Parse()
+	emitPEG := func(c *gen.Case) {
+		if *emit != "" {
+			id := c.ID
+			if i := strings.IndexByte(id, '/'); i >= 0 {
+				id = id[:i]
+			}
+			os.WriteFile(filepath.Join(*emit, id+".peg"), []byte(c.EmittedPEG()), 0o644)
+		}
+	}
 	f, err := os.Create(*out)
 	if err != nil {
 		fmt.Fprintln(os.Stderr, err)
@@ -54,6 +66,9 @@ func main() {
 				if pw != nil && j == 0 {
 					fmt.Fprintf(pw, "## %s tmpl=%s wf=%v\n%s", c.ID, c.Tmpl.Name(), c.WF, gen.GrammarText(c.Rules))
 				}
+				if j == 0 {
+					emitPEG(c)
+				}
 			}
 		}
 		w.Flush()
@@ -70,6 +85,9 @@ func main() {
 			cases++
 			if pw != nil && j == 0 {
 				fmt.Fprintf(pw, "## %s tmpl=%s wf=%v\n%s", c.ID, c.Tmpl.Name(), c.WF, gen.GrammarText(c.Rules))
+			}
+			if j == 0 {
+				emitPEG(c)
 			}
 		}
 	}
